@@ -1273,6 +1273,9 @@ def _descends(test, pname, depthv, value):
                 if le:
                     return False if value < 1 else None
             return None
+        if isinstance(e, ast.Call) and isinstance(
+                e.func, ast.Attribute) and e.func.attr == 'is_leaf':
+            return False  # an inner node
         if 'isinstance(' in unparse(e):
             return True  # a node
         return None
@@ -1284,6 +1287,7 @@ def rule_r5_depth(chk, prog):
     chk.rule('C12.R5', 'walker discipline: DFS/BFS pop from the right end, '
              'visit each node exactly once per iteration, children pushed '
              'once in the order the container discipline requires')
+    from ..shape import parse_expr
     m = prog.mod('nodes')
     n = 0
     for fname in ('dfs', 'bfs'):
@@ -1292,12 +1296,13 @@ def rule_r5_depth(chk, prog):
         if len(ps) < 2:
             continue
         pname = ps[1]
-        # the descend test: the If that guards the push of the children
-        tests = [st for st in walk_no_nested(f) if isinstance(st, ast.If)
-                 and pname in unparse(st.test)]
-        if not tests:
-            raise AnalysisError(f'C12.R5: {fname}: no test of {pname}')
-        # depth variable: the popped first component
+        loops = [l for l in walk_no_nested(f) if isinstance(l, ast.While)]
+        if len(loops) != 1:
+            raise AnalysisError(f'C12.R5: {fname}: expected one work loop')
+        cfg = cfg_of(f)
+        head = cfg.node_of[id(loops[0])]
+        paths = [p for p in loop_body_paths(cfg, loops[0])
+                 if p.end is head]
         depthv = None
         for st in walk_no_nested(f):
             if isinstance(st, ast.Assign) and isinstance(
@@ -1309,17 +1314,55 @@ def rule_r5_depth(chk, prog):
                     val, bool) and val >= 1:
                 continue  # a real limit
             n += 1
-            res = [_descends(t.test, pname, depthv or 'cur_depth', val)
-                   for t in tests]
-            ok = all(r is True for r in res)
+            # iteration paths that are possible for an inner node (a Node
+            # that is not a leaf) at depth >= 1 when the limit is ``val``
+            feasible = []
+            undecided = False
+            for p in paths:
+                okp = True
+                for (t, pol) in p.facts:
+                    e = parse_expr(t)
+                    if e is None:
+                        continue
+                    tt = t.replace(' ', '')
+                    if tt.endswith('.is_leaf()'):
+                        v = False
+                    elif tt.startswith('isinstance('):
+                        v = True
+                    elif tt == loops[0].test.id if isinstance(
+                            loops[0].test, ast.Name) else False:
+                        v = True
+                    elif pname not in {x.id for x in ast.walk(e)
+                                       if isinstance(x, ast.Name)}:
+                        continue
+                    else:
+                        v = _descends(e, pname, depthv or 'cur_depth', val)
+                        if v is None:
+                            undecided = True
+                            continue
+                    if v != pol:
+                        okp = False
+                        break
+                if okp:
+                    feasible.append(p)
+            pushes = [any(c.func.attr in ('extend', 'append', 'extendleft')
+                          for (i_, n_, c) in path_method_calls(p))
+                      for p in feasible]
+            ok = bool(feasible) and all(pushes) and not undecided
+            if undecided and not (feasible and all(pushes)):
+                raise AnalysisError(
+                    f'C12.R5: {fname}: the tests on {pname} cannot be '
+                    f'decided for the value {val!r}')
+            if undecided:
+                ok = True
             chk.check('C12.R5', f'nodes.{fname}',
                       f'limit {val!r} ({src}) means "no limit"', ok,
                       f'the value {val!r} reaches {fname}()\'s {pname} '
                       f'({src}) where the caller means "no depth limit", '
-                      f'but the test "{unparse(tests[0].test)[:70]}" is '
-                      f'{res[0]} for it at depth >= 1: the walk never '
-                      'descends below the top level, nodes are not visited',
-                      loc=m.loc(tests[0]), nontrivial=True)
+                      'but with it an inner node at depth >= 1 can take an '
+                      'iteration path that does not push its children: the '
+                      'walk never descends below the top level, nodes are '
+                      'not visited', loc=m.loc(loops[0]), nontrivial=True)
     chk.floor('C12.R5', '"no limit" values reaching dfs/bfs', n, 2)
 
 
